@@ -522,6 +522,11 @@ func TestVerifBounded_C05_MultiAlgebra(t *testing.T) {
 					}
 				}
 			}
+			// ... and on the alignment: every column holds its former letters again
+			if err := verifAgree(m2, g0, quality); err != nil {
+				report(g0, quality, "Reverse twice", err)
+				return
+			}
 			// Clone then mutate either copy
 			m3 := g0.build(quality)
 			c := m3.Clone().(*Multi)
@@ -537,5 +542,5 @@ func TestVerifBounded_C05_MultiAlgebra(t *testing.T) {
 			}
 		})
 	}
-	fmt.Printf("BOUNDED name=C05.multi-algebra cases=%d nontrivial=%d exhaustive=true domain=\"row-stored alignments of 1..%d rows (plain and quality letters), row lengths 0..%d, offsets -1..%d (non-trivial: ragged rows); RevComp once (mirrored about the span, complemented, qualities travelling) and twice (restored), Reverse twice (letters), Clone then RevComp of either copy\"\n", cases, nontrivial, maxRows, maxLen, maxOff-1)
+	fmt.Printf("BOUNDED name=C05.multi-algebra cases=%d nontrivial=%d exhaustive=true domain=\"row-stored alignments of 1..%d rows (plain and quality letters), row lengths 0..%d, offsets -1..%d (non-trivial: ragged rows); RevComp once (mirrored about the span, complemented, qualities travelling) and twice (restored), Reverse twice (letters, rows and columns restored), Clone then RevComp of either copy\"\n", cases, nontrivial, maxRows, maxLen, maxOff-1)
 }
